@@ -689,6 +689,8 @@ def c18_shapes(tier):
     for bflags in range(8):
         shapes.append(('hx_usage_extras', [bflags, 0], 'c18/usage-extras/b%d' % bflags))
     shapes.append(('hx_usage_nodesc', [0, 0], 'c18/usage-empty-description'))
+    for base in ((72,) if tier == 'quick' else (60, 72, 90)):
+        shapes.append(('hx_usage_layout2', [base, 0], 'c18/usage-layout-second-print/len%d' % base))
     # the usage printed a second time with other display settings
     for nargs, display in ((2, 4), (2, 8), (3, 4), (3, 8), (3, 0), (1, 5), (2, 10)):
         shapes.append(('hx_usage', [nargs, display | 16], 'c18/usage-second-print/args%d/hidden%d/deprecated%d/%s' % (nargs, display & 1, (display >> 1) & 1, ('all', 'short', 'long')[display >> 2])))
